@@ -18,6 +18,10 @@ Model of sender authorisation:
   edit a newer, old-enough stamp)
 * `internal/table/chain.go`  `(*Chain).LookupMulti` → `stepKeys` (the inner loop over the current keys), `chainLookup`
   (the `STEP:` loop), `chainTable`; `(*Chain).Init` only collects the `step` / `optional_step` tables in order
+* `internal/table/email_with_domain.go`  `(*EmailWithDomain).LookupMulti` → `emailWithDomain`, `emailWithDomainTable`
+  (`address.QuoteMbox` is `MaddyVerif.Address.quoteMbox`, the model C17 ties to the code)
+* `internal/msgpipeline/check_runner.go`  `(*checkRunner).runAndMergeResults`, as far as the decision is concerned →
+  `Verdict`, `Merge.step`, `mergeResults` (the check runs in a check group next to other checks; the full runner is C06's)
 * `internal/auth/sasl.go`  `(*SASLAuth).CreateSASL` (PLAIN), `AuthPlain`, `usernameForAuth` (without `auth_map`) → `saslPlain`
 * `internal/endpoint/smtp/submission.go`  `submissionPrepare`          → `submissionWrites` (frame: which fields it writes)
 
@@ -495,6 +499,46 @@ def chainLookup : List (Bool × Table) → List Str → Except Unit (List Str)
     | .ok (some r) => chainLookup rest r
 
 def chainTable (steps : List (Bool × Table)) : Table := .multi fun k => chainLookup steps [k]
+
+/-! ### `table.email_with_domain` (internal/table/email_with_domain.go)
+
+`LookupMulti` answers, for ANY key, one value per configured domain: `QuoteMbox(key) + "@" + domain` — the WHOLE
+key becomes the local part (quoted when it holds specials, an at-sign included).  `Init` refuses an empty
+domain list.  The module implements `MultiTable`, so the check and `table.chain` use `LookupMulti`. -/
+def emailWithDomain (domains : List Str) (key : Str) : List Str :=
+  domains.map fun d => quoteMbox key ++ AT :: d
+
+def emailWithDomainTable (domains : List Str) : Table := .multi fun k => .ok (emailWithDomain domains k)
+
+/-! ### next to other checks: `runAndMergeResults` (internal/msgpipeline/check_runner.go)
+
+authorize_sender is one check of a check group; the pipeline runs the checks of the group at every stage in
+goroutines of their own and merges what they return.  As far as the decision goes: every result is looked at
+when its goroutine finishes (`if Quarantine … else if Reject …`), a quarantine verdict and a reject verdict are
+remembered SEPARATELY (`setQuarantineErr` / `setRejectErr`, each a `sync.Once`); after all goroutines finished
+(`wg.Wait`) a remembered rejection fails the command, otherwise a remembered quarantine flags the message.
+The completion order of the goroutines is the list order of `mergeResults`' argument. -/
+inductive Verdict | none | quarantine | reject
+deriving DecidableEq, Repr
+
+/-- what the runner's `if subCheckRes.Quarantine … else if subCheckRes.Reject …` sees of a result -/
+def Result.verdict (r : Result) : Verdict :=
+  if r.quarantine then .quarantine else if r.reject then .reject else .none
+
+structure Merge where
+  qErr : Bool := false
+  rErr : Bool := false
+deriving DecidableEq, Repr
+
+def Merge.step (m : Merge) : Verdict → Merge
+  | .quarantine => { m with qErr := true }
+  | .reject => { m with rErr := true }
+  | .none => m
+
+/-- completion order of the group's verdicts ↦ (the command fails, the message is flagged) -/
+def mergeResults (completion : List Verdict) : Bool × Bool :=
+  let m := completion.foldl Merge.step {}
+  if m.rErr then (true, false) else (false, m.qErr)
 
 /-! ### SASL PLAIN on the endpoint (internal/auth/sasl.go), as far as the identity is concerned
 
